@@ -24,6 +24,10 @@ the registry as well; the enum values, the layers of a materializer's context an
 A value given for `materializer=` may be a name, a materializer class, an instance or anything else
 (`MatArg`); `__post_init__` turns it into a name. After `_prepare_model_specs` the leaves of one
 request must agree on output / null policy / rank setting (`consistent`, else `RuntimeError`).
+`ModelSpecs.get_model_matrix` on parts that cannot share a materializer (per-spec branch) hands every
+part ONE drop set — the caller's, or a set it creates (`Call.freshDrop`) — and generates the parts a
+second time when that set grew during the first pass (`Call.dropGrows`, a parameter: it depends on
+the nulls of the data).
 Formulas, data, context mappings, `drop_rows` sets and materializer params are opaque identities. A
 structured spec is modelled as its list of `(key, leaf)` in `_flatten` order. Frame capture
 (`context=<int>`) is not modelled. Core Lean only. -/
@@ -211,6 +215,14 @@ structure Call where
   context : Option Nat
   dropRows : Option Nat
   overrides : List Attr
+  /-- the identity of the set `ModelSpecs.get_model_matrix` creates itself when the caller gave no
+  `drop_rows` and the parts cannot share a materializer (ONE new object per call, shared by all parts;
+  a new object is not the caller's: `FreshOK`) -/
+  freshDrop : Nat := 0
+  /-- PARAMETER: did the drop set grow while the parts were generated one by one (null rows found
+  under the drop policy that the set did not hold yet)? Depends on the data and is the business of
+  property C06/C07; here it only decides whether the parts are generated a second time -/
+  dropGrows : Bool := false
 deriving DecidableEq, Repr
 
 /-- `FormulaMaterializer.for_data(data)` -/
@@ -299,6 +311,14 @@ def jointLoop : Option String → Option Nat → List MSpec → Option (Option S
       else if (m ≠ none ∧ m ≠ some sm) ∨ (p ≠ none ∧ p ≠ s.params) then none   -- `break`
       else jointLoop (some sm) s.params r
 
+/-- the set object the per-spec branch of `ModelSpecs.get_model_matrix` works with: the caller's, or a fresh one -/
+def perSpecDrop (c : Call) : Option Nat → Option Nat
+  | none => some c.freshDrop
+  | some d => some d
+
+/-- the requests of one pass, or of two equal passes -/
+def twice {α} (again : Bool) (l : List α) : List α := if again then l ++ l else l
+
 /-- `ModelSpecs.get_model_matrix(data, context, drop_rows)` without overrides -/
 def modelSpecsGMM0 (env : Env) (c : Call) (parts : List (String × MSpec)) (dropRows : Option Nat) :
     Except Err (List Request) :=
@@ -311,7 +331,11 @@ def modelSpecsGMM0 (env : Env) (c : Call) (parts : List (String × MSpec)) (drop
     | .ok r =>
       (materializerGMM env (instOf c r p) (.mspecs parts) (if env.fwdJoint then dropRows else none) []).map (fun q => [q])
   | none =>
-    (mapParts (fun ms => modelSpecGMM env c ms dropRows []) parts).map (fun rs => rs.map (·.2))
+    -- the parts cannot share a materializer but must share the rows that are dropped:
+    -- `if drop_rows is None: drop_rows = set()`, every part is generated with that ONE object, and
+    -- `if len(drop_rows) != n_dropped: model_matrices = generate()` generates all of them once more
+    (mapParts (fun ms => modelSpecGMM env c ms (perSpecDrop c dropRows) []) parts).map
+      (fun rs => twice c.dropGrows (rs.map (·.2)))
 
 /-- `ModelSpecs.get_model_matrix(data, context, drop_rows, **attr_overrides)` -/
 def modelSpecsGMM (env : Env) (c : Call) (parts : List (String × MSpec)) (dropRows : Option Nat) (ov : List Attr) :
